@@ -27,6 +27,30 @@ pub enum Ty {
     Bool,
     Str,
     Int,
+    /// string fields whose CONDITIONS also use the string operators (starts_with, ends_with, contains,
+    /// not_contains) with literals that contain a dot; goals on them stay `==` / `!=`
+    Text,
+}
+
+/// number of condition operators of a type
+fn nops(ty: Ty) -> u8 {
+    match ty {
+        Ty::Int | Ty::Text => 6,
+        _ => 2,
+    }
+}
+
+const TEXT_VALUES: [&str; 3] = ["p.ab", "p.ac", "q.bc"];
+
+/// the literal of a condition atom: the field's own values for `==` / `!=` and the ordering operators, a
+/// pattern for the string operators of `Ty::Text`
+fn cond_lit(ty: Ty, op: u8, lit: u8) -> Value {
+    match (ty, op % 6) {
+        (Ty::Text, 2) => Value::String(["p.", "q.", "p.a"][lit as usize % 3].to_string()),
+        (Ty::Text, 3) => Value::String(["c", ".ab", "bc"][lit as usize % 3].to_string()),
+        (Ty::Text, 4) | (Ty::Text, 5) => Value::String([".a", "b", "q"][lit as usize % 3].to_string()),
+        _ => lit_value(ty, lit),
+    }
 }
 
 #[derive(Clone, Debug, Serialize, Deserialize, PartialEq)]
@@ -173,6 +197,7 @@ fn lit_value(ty: Ty, lit: u8) -> Value {
         Ty::Bool => Value::Boolean(lit % 2 == 1),
         Ty::Str => Value::String(["u", "v", "w"][lit as usize % 3].to_string()),
         Ty::Int => Value::Integer((lit % 3) as i64),
+        Ty::Text => Value::String(TEXT_VALUES[lit as usize % 3].to_string()),
     }
 }
 
@@ -181,6 +206,7 @@ fn lit_text(ty: Ty, lit: u8) -> String {
         Ty::Bool => (lit % 2 == 1).to_string(),
         Ty::Str => format!("\"{}\"", ["u", "v", "w"][lit as usize % 3]),
         Ty::Int => (lit % 3).to_string(),
+        Ty::Text => format!("\"{}\"", TEXT_VALUES[lit as usize % 3]),
     }
 }
 
@@ -193,6 +219,14 @@ fn op_of(ty: Ty, op: u8) -> (Operator, &'static str) {
             3 => (Operator::LessThanOrEqual, "<="),
             4 => (Operator::GreaterThan, ">"),
             _ => (Operator::GreaterThanOrEqual, ">="),
+        },
+        Ty::Text => match op % 6 {
+            0 => (Operator::Equal, "=="),
+            1 => (Operator::NotEqual, "!="),
+            2 => (Operator::StartsWith, "starts_with"),
+            3 => (Operator::EndsWith, "ends_with"),
+            4 => (Operator::Contains, "contains"),
+            _ => (Operator::NotContains, "not_contains"),
         },
         _ => {
             if op % 2 == 0 {
@@ -217,6 +251,25 @@ fn atom_on(ty: Ty, at: &BAtom, v: &Value) -> bool {
             _ => a >= b,
         },
         (Ty::Int, _, _) => false,
+        (Ty::Text, v, _) if at.op % 6 >= 2 => {
+            let (s, pat) = match (v, cond_lit(ty, at.op, at.lit)) {
+                (Value::String(s), Value::String(p)) => (s.clone(), p),
+                _ => return at.op % 6 == 5,
+            };
+            match at.op % 6 {
+                2 => s.starts_with(&pat),
+                3 => s.ends_with(&pat),
+                4 => s.contains(&pat),
+                _ => !s.contains(&pat),
+            }
+        }
+        (Ty::Text, _, _) => {
+            if at.op % 6 == 0 {
+                *v == lit
+            } else {
+                *v != lit
+            }
+        }
         _ => {
             if at.op % 2 == 0 {
                 *v == lit
@@ -241,7 +294,7 @@ fn cond_group(types: &[Ty], c: &BCond) -> ConditionGroup {
     match c {
         BCond::Atom(a) => {
             let ty = types[a.field as usize % NF];
-            ConditionGroup::single(Condition::new(fkey(a.field), op_of(ty, a.op).0, lit_value(ty, a.lit)))
+            ConditionGroup::single(Condition::new(fkey(a.field), op_of(ty, a.op).0, cond_lit(ty, a.op, a.lit)))
         }
         BCond::And(a, b) => ConditionGroup::and(cond_group(types, a), cond_group(types, b)),
         BCond::Or(a, b) => ConditionGroup::or(cond_group(types, a), cond_group(types, b)),
@@ -341,7 +394,8 @@ fn closure(types: &[Ty], rules: &[BRule], start: &Snapshot) -> BTreeMap<u8, Vec<
                 let vals = &d[&(a.field % NF as u8)];
                 // a missing field reads as null: `!=` is then true, everything else false
                 if vals.is_empty() {
-                    return a.op % if ty == Ty::Int { 6 } else { 2 } == 1;
+                    // (the string operators on a missing field: not modelled — the closure over-approximates)
+                    return a.op % nops(ty) == 1 || (ty == Ty::Text && a.op % 6 >= 2);
                 }
                 vals.iter().any(|v| atom_on(ty, a, v))
             }
@@ -434,7 +488,7 @@ fn min_height(types: &[Ty], rules: &[BRule], start: &Snapshot, goal: &BAtom) -> 
             let f = a.field % NF as u8;
             if let Some(l) = assigned.get(&f) {
                 let ty = types[f as usize];
-                let eq = a.op % if ty == Ty::Int { 6 } else { 2 } == 0;
+                let eq = a.op % nops(ty) == 0;
                 if !eq || lit_value(ty, a.lit) != lit_value(ty, *l) {
                     return None;
                 }
@@ -512,7 +566,7 @@ fn chain_height(types: &[Ty], rules: &[BRule], start: &Snapshot, goal: &BAtom) -
     let norm = |a: &BAtom| -> (u8, u8, u8) {
         let f = a.field % NF as u8;
         let ty = types[f as usize];
-        (f, a.op % if ty == Ty::Int { 6 } else { 2 }, a.lit % if ty == Ty::Bool { 2 } else { 3 })
+        (f, a.op % nops(ty), a.lit % if ty == Ty::Bool { 2 } else { 3 })
     };
     let mut h: BTreeMap<(u8, u8, u8), usize> = BTreeMap::new();
     let mut all: Vec<BAtom> = Vec::new();
@@ -643,7 +697,7 @@ fn judge(
             let d = closure(types, rules, before);
             let ty = types[goal.field as usize % NF];
             let vals = &d[&(goal.field % NF as u8)];
-            let in_closure = if vals.is_empty() { goal.op % if ty == Ty::Int { 6 } else { 2 } == 1 } else { vals.iter().any(|v| atom_on(ty, goal, v)) };
+            let in_closure = if vals.is_empty() { goal.op % nops(ty) == 1 } else { vals.iter().any(|v| atom_on(ty, goal, v)) };
             if !in_closure {
                 let v = Violation::new("C09", "sound.closure", site, "provable-but-not-in-forward-closure", format!("{whose}: `{gt}` reported provable, but no sequence of rule firings from the initial facts can make it true (values {} can take: {vals:?})", fkey(goal.field)), step);
                 if !obs.is_known(&v) {
@@ -1173,12 +1227,13 @@ fn run_frames(ops: &[FrameOp], obs: &mut Obs) -> Result<(), Violation> {
 }
 
 fn gen_search(rng: &mut Rng, hash_seed: u64, c11_ops: bool, with_negation: bool) -> BwdTrace {
-    let domain = rng.usize(4); // 0 bool, 1 string, 2 integer, 3 mixed bool/string
+    let domain = rng.usize(5); // 0 bool, 1 string, 2 integer, 3 mixed bool/string, 4 text (string operators) with some booleans
     let types: Vec<Ty> = (0..NF)
         .map(|_| match domain {
             0 => Ty::Bool,
             1 => Ty::Str,
             2 => Ty::Int,
+            4 => *rng.pick(&[Ty::Text, Ty::Text, Ty::Text, Ty::Bool]),
             _ => *rng.pick(&[Ty::Bool, Ty::Str]),
         })
         .collect();
@@ -1256,11 +1311,14 @@ fn gen_search(rng: &mut Rng, hash_seed: u64, c11_ops: bool, with_negation: bool)
         for _ in 0..2 + rng.usize(3) {
             let a = rng.below(nvals as u64) as u8;
             let b = (a + 1 + rng.below(nvals as u64 - 1) as u8) % nvals;
-            m.push(BRule { cond: BCond::Atom(BAtom { field: 0, op: 0, lit: a }), sets: vec![(0, b)], fails: false, copies: vec![], no_loop: false, retracts: vec![], appends: false });
+            // (on a text field every other transition tests the state with a string operator)
+            let op = if types[0] == Ty::Text && rng.chance(1, 2) { 2 + rng.below(4) as u8 } else { 0 };
+            m.push(BRule { cond: BCond::Atom(BAtom { field: 0, op, lit: a }), sets: vec![(0, b)], fails: false, copies: vec![], no_loop: false, retracts: vec![], appends: false });
         }
         let v = rng.below(3) as u8;
         for _ in 0..1 + rng.usize(2) {
-            m.push(BRule { cond: BCond::Atom(BAtom { field: 0, op: 0, lit: rng.below(nvals as u64) as u8 }), sets: vec![(1, v)], fails: false, copies: vec![], no_loop: false, retracts: vec![], appends: false });
+            let op = if types[0] == Ty::Text && rng.chance(1, 2) { 2 + rng.below(4) as u8 } else { 0 };
+            m.push(BRule { cond: BCond::Atom(BAtom { field: 0, op, lit: rng.below(nvals as u64) as u8 }), sets: vec![(1, v)], fails: false, copies: vec![], no_loop: false, retracts: vec![], appends: false });
         }
         m.extend(rules.iter().take(rng.usize(3)).cloned());
         rng.shuffle(&mut m);
@@ -1276,7 +1334,8 @@ fn gen_search(rng: &mut Rng, hash_seed: u64, c11_ops: bool, with_negation: bool)
             if horn && rng.chance(3, 4) {
                 BAtom { field: f, op: 0, lit: assigned_val[f as usize] }
             } else {
-                BAtom { field: f, op: rng.below(6) as u8, lit: rng.below(3) as u8 }
+                // goals on text fields stay `==` / `!=`
+                BAtom { field: f, op: if types[f as usize] == Ty::Text { rng.below(2) as u8 } else { rng.below(6) as u8 }, lit: rng.below(3) as u8 }
             }
         })
         .collect::<Vec<BAtom>>();
@@ -1292,7 +1351,7 @@ fn gen_search(rng: &mut Rng, hash_seed: u64, c11_ops: bool, with_negation: bool)
         let mut ats = Vec::new();
         atoms_of(&r.cond, &mut ats);
         for a in ats {
-            if a.op % if types[a.field as usize % NF] == Ty::Int { 6 } else { 2 } == 0 {
+            if a.op % nops(types[a.field as usize % NF]) == 0 {
                 premises.push((a.field % NF as u8, a.lit));
             }
         }
@@ -1459,6 +1518,12 @@ impl World for BwdWorld {
                 OBJECTS.with(|o| o.set(*objects));
                 if *objects {
                     obs.count("probe.fields_on_three_objects");
+                }
+                // goals on text fields are `==` / `!=` whatever the trace says (a hand-edited or shrunk trace)
+                let goals: Vec<BAtom> = goals.iter().map(|g| if types[g.field as usize % NF] == Ty::Text { BAtom { op: g.op % 2, ..g.clone() } } else { g.clone() }).collect();
+                let goals = &goals;
+                if types.contains(&Ty::Text) {
+                    obs.count("probe.program_over_text_fields_with_string_operators");
                 }
                 run_search(prop, types, init, rules, goals, *max_depth, *strategy, (*max_solutions).max(1), *memo, *attach_rete, ops, alt_hash_seeds, obs)
             }
